@@ -443,6 +443,81 @@ let op_pgdecode (rest : string) : string =
       let s = M.rep_of_position zt p in
       String.concat " " (List.map (fun c -> pi (M.decode_move (n_of_int (int_of_string c)) (fun sq -> M.piece_at s sq))) codes))
 
+(* ---------- C12 KPK: the model of normalize/getIndex/check over the dumped table ---------- *)
+let bb_words : M.n array Lazy.t = lazy (Array.of_list M.bitbase_dump)
+let bb_word (i : M.n) : M.n = let a = Lazy.force bb_words in let k = int_of_n i in if k < Array.length a then a.(k) else M.N0
+let op_kpkraw (args : string list) : string =
+  match args with
+  | [strong; stm; pawn] ->
+    let pawn = n_of_int (int_of_string pawn) in
+    let b = Buffer.create 4096 in
+    for sk = 0 to 63 do
+      for wk = 0 to 63 do
+        let r =
+          if strong = "0" then
+            M.engine_W bb_word { M.k_btm = (stm = "1"); M.k_wk = n_of_int sk; M.k_wp = pawn; M.k_bk = n_of_int wk }
+          else
+            (* strong side Black: white to move <-> stm = 0 *)
+            M.engine_W_black bb_word (stm = "0") (n_of_int sk) pawn (n_of_int wk) in
+        Buffer.add_char b (if r then '1' else '0')
+      done
+    done;
+    Buffer.contents b
+  | _ -> "BAD-ARGS"
+
+(* kpksolve : solve the KPK game from the SPEC (least fixed point by iteration) and list the placements
+   where the engine's table disagrees with the truth.  Used as the counterexample search of C12. *)
+let kpk_index (p : M.kpk) : int =
+  int_of_n p.M.k_wk + 64 * int_of_n p.M.k_bk + (if p.M.k_btm then 4096 else 0)
+  + 8192 * (int_of_n p.M.k_wp land 7) + 65536 * ((int_of_n p.M.k_wp lsr 3) - 1)
+let kpk_of_idx (i : int) : M.kpk =
+  { M.k_wk = n_of_int (i land 63); M.k_bk = n_of_int ((i lsr 6) land 63); M.k_btm = ((i lsr 12) land 1 = 1);
+    M.k_wp = n_of_int (((i lsr 13) land 7) + 8 * ((i lsr 16) + 1)) }
+let sqname (s : int) : string = Printf.sprintf "%c%c" (Char.chr (97 + s land 7)) (Char.chr (49 + s lsr 3))
+let op_kpksolve () : string =
+  let n = 393216 in
+  let legal = Array.make n false and kids = Array.make n [||] and winnow = Array.make n false
+  and save = Array.make n false and btm = Array.make n false in
+  for i = 0 to n - 1 do
+    let p = kpk_of_idx i in
+    if M.kpk_legal p then begin
+      legal.(i) <- true;
+      btm.(i) <- p.M.k_btm;
+      kids.(i) <- Array.of_list (List.map kpk_index (M.kpk_moves p));
+      winnow.(i) <- M.kpk_win_now p;
+      save.(i) <- M.kpk_save_now p
+    end
+  done;
+  let win = Array.make n false in
+  let changed = ref true in
+  while !changed do
+    changed := false;
+    for i = 0 to n - 1 do
+      if legal.(i) && not win.(i) then begin
+        let w =
+          if not btm.(i) then winnow.(i) || Array.exists (fun q -> win.(q)) kids.(i)
+          else (not save.(i)) && Array.length kids.(i) > 0 && Array.for_all (fun q -> win.(q)) kids.(i) in
+        if w then begin win.(i) <- true; changed := true end
+      end
+    done
+  done;
+  let diffs = ref [] and nd = ref 0 and nlegal = ref 0 and nwin = ref 0 in
+  for i = 0 to n - 1 do
+    if legal.(i) then begin
+      incr nlegal; if win.(i) then incr nwin;
+      let e = M.engine_W bb_word (kpk_of_idx i) in
+      if e <> win.(i) then begin
+        incr nd;
+        if !nd <= 12 then begin
+          let p = kpk_of_idx i in
+          diffs := Printf.sprintf "wK=%s,P=%s,bK=%s,%s:engine=%b,truth=%b" (sqname (int_of_n p.M.k_wk)) (sqname (int_of_n p.M.k_wp))
+              (sqname (int_of_n p.M.k_bk)) (if p.M.k_btm then "b" else "w") e win.(i) :: !diffs
+        end
+      end
+    end
+  done;
+  Printf.sprintf "legal=%d won=%d wrong=%d %s" !nlegal !nwin !nd (String.concat " " (List.rev !diffs))
+
 (* ---------- model-driven random games ---------- *)
 
 (* playout <seed> <plies> <bias> <fen> : random legal game; bias (0..9) favours special moves *)
@@ -498,6 +573,8 @@ let dispatch (line : string) : string =
      | "walk" -> op_walk (rest_after line 1)
      | "g_key" -> run_key_game (rest_after line 1)
      | "pghash" -> op_pghash (rest_after line 1)
+     | "kpkraw" -> op_kpkraw args
+     | "kpksolve" -> op_kpksolve ()
      | "pghash_alg" -> op_pghash_alg (rest_after line 1)
      | "book" -> op_book args
      | "pickm" -> op_pickm (rest_after line 1)
